@@ -607,7 +607,13 @@ class PlotUnchangedMonitor(Handler):
 def attach_monitors():
     import physt.plotting as pp
 
-    attach.wrap(pp, "plot", PlotUnchangedMonitor())
+    mon = PlotUnchangedMonitor()
+    attach.wrap(pp, "plot", mon)
+    # the plotting functions themselves (the repository's tests call them directly)
+    for backend in pp.backends.values():
+        for kind in getattr(backend, "types", ()):
+            if callable(getattr(backend, kind, None)):
+                attach.wrap(backend, kind, mon, qualname=f"{backend.__name__}.{kind}")
 
 
 def run(ctx):
